@@ -485,6 +485,9 @@ func genC02(g *Gen) {
 				if fill == 0 || g.Thorough {
 					os := c02Ones(ws)
 					for p := B - 3; p <= B+1; p++ {
+						if !g.Thorough && (p+m)%2 == 0 {
+							continue
+						}
 						from(ws, os, p)
 					}
 					from(ws, os, 0)
@@ -610,7 +613,9 @@ func genC02(g *Gen) {
 		for q := 0; q < 6; q++ {
 			try(g.R.Intn(cnt))
 		}
-		if !g.Thorough || k%4 == 0 {
+		if !g.Thorough {
+			fromSpread(ws, os, 1)
+		} else if k%4 == 0 {
 			fromSpread(ws, os, 2)
 		}
 		if k%4 == 0 {
